@@ -3,4 +3,10 @@
 EXTENDS TopoSort
 Keys3 == {"a", "b", "c"}
 Keys4 == {"a", "b", "c", "d"}
+\* thorough: four keys, every graph in which a key has at most two dependencies (self-dependencies included,
+\* the non-key dependency "zz" left to the three-key instance): 11^4 graphs x 24 iteration orders
+InitSparse == /\ Deps \in [Keys -> { S \in SUBSET Keys : Cardinality(S) <= 2 }]
+              /\ iter \in Perms(Keys) /\ pos = 1 /\ stack = <<>>
+              /\ seen = [k \in {} |-> ""] /\ order = <<>> /\ err = ""
+SpecSparse == InitSparse /\ [][Next]_vars
 =============================================================================
